@@ -4,13 +4,17 @@ from harness.props._common import run_eval, replay_eval
 from harness import monitors
 
 PROPS_FILE = "P_C04"
+COQ_TARGETS = ["CaseLib", "CaseLibMcx", "LdmcsuModel"]
 RULE = ("contract monitors: every call of Qdmcu.custom_sqrtm (V unitary, V V = U: premises of C04_barenco_step) and of "
         "Ldmcsu._compute_gate_a (A unitary, (A^dagger X A X)^2 = U: conclusion of C04_gate_a_fourth_root in matrix form) made while "
-        "building gates for boundary and random SU(2)/U(2) matrices and 2..6/9 controls is checked numerically at 1e-9; direct "
+        "building gates for boundary and random SU(2)/U(2) matrices and 2..6/9 controls is checked numerically at 1e-9; gate-list "
+        "correspondence: the flattened definition of Ldmcsu(U, k, ctrl_state) for U with a real main or secondary diagonal, k = 2..12/24, "
+        "is compared inside Coq (vm_compute) with LdmcsuModel.ldmcsu k pattern hconj, and the 2x2 premises of C04_ldmcsu_plain/_hconj "
+        "(A^dagger A = I, (A^dagger X A X)^2 = U or H U H) are checked on the A the code computed; direct "
         "evaluation (harness/props/c04_eval.py): operator / random-state evolution vs the ideal controlled-U for every gate class, "
         "control pattern and boundary matrix. distinct = distinct (class, matrix, controls, pattern); non-trivial = k >= 2")
 ASSUMPTIONS = ["Qiskit's UnitaryGate(...).control(...) is the ideal controlled gate (validated numerically in the direct evaluation)",
-               "Ldmcu's ladder, Ldmcsu's eigenbasis branch, LdMcSpecialUnitary's ABC decomposition, MCU's truncated ladder and "
+               "Ldmcu's ladder, Ldmcsu's eigenbasis branch (complex diagonals), LdMcSpecialUnitary's ABC decomposition, MCU's truncated ladder and "
                "MultiTargetMCSU2 are evaluated, not proved"]
 TRUSTED = ["harness/monitors.py"]
 X = np.array([[0, 1], [1, 0]], dtype=complex)
@@ -93,8 +97,77 @@ def monitor_run(ctx):
                     break
 
 
+LHEADER = ("From Coq Require Import List Bool Arith.\nFrom QV Require Import McxModel CaseLib CaseLibMcx LdmcsuModel.\nImport ListNotations.\n"
+           "Definition lgate_eqb (g h : lgate) : bool := match g, h with\n"
+           " | LS a, LS b => sgate_eqb a b | LA d t, LA d' t' => Bool.eqb d d' && Nat.eqb t t' | LH t, LH t' => Nat.eqb t t' | _, _ => false end.\n"
+           "(* when A is Hermitian, A and A^dagger are the same matrix: the dagger flag carries no information *)\n"
+           "Definition undag (g : lgate) : lgate := match g with LA _ t => LA false t | _ => g end.\n")
+
+
+def ldmcsu_correspondence(ctx):
+    """Ldmcsu(U, k, ctrl_state) for SU(2) matrices with a real main or secondary diagonal: the flattened definition is compared
+    inside Coq with LdmcsuModel.ldmcsu; the 2x2 premises of C04_ldmcsu_plain / C04_ldmcsu_hconj are checked on A."""
+    from cmath import isclose
+    from qclib.gates.ldmcsu import Ldmcsu
+    from harness.flatten import flatten, coq_list, coq_bool
+    from harness.coqcases import run_bool_cases
+    from harness.props.c05 import pat_of
+    kmax = 12 if ctx.quick else 24
+    H = np.array([[1, 1], [1, -1]], dtype=complex) / np.sqrt(2)
+    cases, lines = [], []
+    for k in range(2, kmax + 1):
+        for fam, U in su2_family(ctx.rng):
+            sec_real = isclose(U[0, 1].imag, 0.0) and isclose(U[1, 0].imag, 0.0)
+            main_real = isclose(U[0, 0].imag, 0.0) and isclose(U[1, 1].imag, 0.0)
+            if not (sec_real or main_real):
+                continue          # eigenbasis branch: not modelled
+            hconj = not sec_real
+            cs = None if ctx.rng.random() < 0.3 else "".join("1" if ctx.rng.random() < 0.5 else "0" for _ in range(k))
+            g = Ldmcsu(U, k, ctrl_state=cs)
+            fl, _ = flatten(g.definition)
+            A = Ldmcsu._compute_gate_a(*Ldmcsu._get_x_z(U))
+            items = []
+            herm = np.abs(A - A.conj().T).max() < 1e-12
+            for name, qs, op in fl:
+                if name == "unitary" and len(qs) == 1:
+                    M = np.asarray(op.to_matrix())
+                    if np.abs(M - A).max() < 1e-12:
+                        items.append(f"LA false {qs[0]}")
+                    elif np.abs(M - A.conj().T).max() < 1e-12:
+                        items.append(f"LA true {qs[0]}")
+                    else:
+                        items.append("LH 99999")
+                elif name == "h":
+                    items.append(f"LH {qs[0]}")
+                else:
+                    from harness.props.c05 import sgates_to_coq
+                    items.append("LS (" + sgates_to_coq([(name, qs, op)])[1:-1] + ")")
+            case = {"class": "Ldmcsu", "k": k, "ctrl_state": cs, "mat_family": fam, "hconj": hconj}
+            cases.append(case)
+            ctx.max_struct_qubits = max(ctx.max_struct_qubits, k + 1)
+            ctx.count("corr:ldmcsu:" + ("hconj" if hconj else "plain"), key=("ldmcsu", k, cs, fam, U.tobytes()), nontrivial=True,
+                      sample=dict(case, gates=len(items)) if k == 5 else None)
+            model = f"(ldmcsu {k} {coq_list([coq_bool(b) for b in pat_of(cs, k)])} {coq_bool(hconj)})"
+            if herm:
+                model = f"(map undag {model})"
+            lines.append(f"(list_eqb lgate_eqb {model} {coq_list(items)})")
+            # premises of the theorems on the actual A
+            X2 = X
+            W = A.conj().T @ X2 @ A @ X2
+            Uprime = H @ U @ H if hconj else U
+            ctx.monitor("ldmcsu_theorem_premises")
+            if np.abs(A.conj().T @ A - np.eye(2)).max() > 1e-9 or np.abs(W @ W - Uprime).max() > 1e-9:
+                ctx.mismatch("C04 contract: (A^dagger X A X)^2 = U (or H U H) fails for the matrix returned by Ldmcsu._compute_gate_a",
+                             dict(case, matrix=[[str(z) for z in row] for row in U]))
+
+    def on_fail(c):
+        ctx.mismatch("C04 correspondence: flattened Ldmcsu definition differs from the Coq model LdmcsuModel.ldmcsu", c)
+    run_bool_cases(ctx, "c04_ldmcsu", LHEADER, lines, cases, on_fail, shard=12)
+
+
 def run(ctx):
     monitor_run(ctx)
+    ldmcsu_correspondence(ctx)
     run_eval(ctx, "C04")
 
 
@@ -107,7 +180,7 @@ def replay(ctx, case):
 
 
 MANIFEST = dict(
-    text="Proof (PARTIAL): the recursion step of Qdmcu (Barenco Lemma 7.5) for any placement and any 'rest' predicate (C04_barenco_step), and the fourth-root identity of Ldmcsu._compute_gate_a over the reals (C04_gate_a_fourth_root); the V-chains they use are C05's theorems. Tie: every custom_sqrtm and _compute_gate_a call made while building gates for boundary and random SU(2) matrices is checked against the theorem's premises/conclusion in matrix form. All gate classes (Ldmcu, Ldmcsu, LdMcSpecialUnitary, Qdmcu, Mcg, MCU, MultiTargetMCSU2), patterns and boundary matrices are evaluated against the ideal controlled operator.",
-    note='Modelled, not verified: Qiskit .control(), UnitaryGate; Ldmcu ladder, eigenbasis branch, ABC decomposition, MCU bound, multi-target variant are evaluated only.',
+    text="Proof (PARTIAL): the recursion step of Qdmcu (Barenco Lemma 7.5) for any placement and any 'rest' predicate (C04_barenco_step), and the fourth-root identity of Ldmcsu._compute_gate_a over the reals (C04_gate_a_fourth_root); Ldmcsu end to end for every k >= 2, every control pattern and every SU(2) matrix with a real main or secondary diagonal: the gate list of LdmcsuModel.ldmcsu (two dirty V-chains, their inverses, A / A^dagger, optional H conjugation) applies U to the target exactly on the basis states matching the pattern and the identity elsewhere (C04_ldmcsu_plain, C04_ldmcsu_hconj, built on C05's placed V-chain theorems). Tie: the flattened Ldmcsu definition is compared with the model's gate list inside Coq; every custom_sqrtm and _compute_gate_a call made while building gates for boundary and random SU(2) matrices is checked against the theorem's premises/conclusion in matrix form. All gate classes (Ldmcu, Ldmcsu, LdMcSpecialUnitary, Qdmcu, Mcg, MCU, MultiTargetMCSU2), patterns and boundary matrices are evaluated against the ideal controlled operator.",
+    note='Modelled, not verified: Qiskit .control(), UnitaryGate; Ldmcu ladder, Ldmcsu eigenbasis branch, ABC decomposition, MCU bound, multi-target variant are evaluated only.',
     technique='Coq proof (operator algebra on monomial/permuted states; real sqrt algebra) + runtime contract monitors + operator / random-state evaluation',
     design_ref='DESIGN.md section 4, C04')
